@@ -530,7 +530,7 @@ def reset_world():
     for p in list(_registered_sources):
         linecache.cache.pop(p, None)
     _registered_sources.clear()
-    LOGS.clear()
+    LOGS.clear() if not __import__("os").environ.get("VF_KEEP_LOGS") else None
     reset_clock()
 
 
